@@ -304,6 +304,13 @@ func checkResourceConfig(cur QueueConfig) (*resources.Resource, *resources.Resou
 	if !m.FitInMaxUndef(g) {
 		return nil, nil, fmt.Errorf("guaranteed resource %s is larger than maximum resource %s for queue %s", g.String(), m.String(), cur.Name)
 	}
+	// the child template is parsed when the queue is created: its quantities must be parsable too
+	if _, err = resources.NewResourceFromConf(cur.ChildTemplate.Resources.Guaranteed); err != nil {
+		return nil, nil, err
+	}
+	if _, err = resources.NewResourceFromConf(cur.ChildTemplate.Resources.Max); err != nil {
+		return nil, nil, err
+	}
 	return g, m, nil
 }
 
